@@ -180,6 +180,20 @@ func (d *driver) permCases(cases []PermCase) {
 			for i := range cst.Manifest.Permissions {
 				each[i] = cst.Manifest.Permissions[i].IsAllowed(K.Hash, &kst.Manifest, c.Method)
 			}
+			// (1b) the same question on the manifest as a RESTARTED node would load it (stack item codec used by
+			// ContractManagement's cache initialisation): a permission must not widen on reload
+			if it, err := cst.Manifest.ToStackItem(); err == nil {
+				var rm manifest.Manifest
+				if err := rm.FromStackItem(it); err == nil {
+					canR := rm.CanCall(K.Hash, &kst.Manifest, c.Method)
+					d.res.Inc("perm_reloaded_evaluations", 1)
+					if canR && !c.May {
+						d.res.Violate(map[string]any{"kind": "permission-too-permissive", "site": "reloaded-manifest"},
+							"a manifest reloaded through its storage codec allows a call the specification refuses",
+							map[string]any{"perms": c.Perms, "groups": c.Groups, "method": c.Method})
+					}
+				}
+			}
 			// (2) real cross-contract calls: System.Contract.Call and CALLT
 			obs := map[string]bool{}
 			for _, via := range []string{"c", "t"} {
